@@ -66,6 +66,12 @@ def table(D, E, ck):
                 cases.append(dict(op="mean", shapes=[s], args=dict(af, initial=[], keepdims="F", mul=n), data=dat))
                 cases.append(dict(op="var", shapes=[s], args=dict(af, initial=[], keepdims="T", mul=n * n, n=n), data=dat))
                 cases.append(dict(op="stddev", shapes=[s], args=dict(af, initial=[], keepdims="F", mul=n * n, n=n), data=dat))
+                # dtype absent on narrow integer sources whose sums leave the element type's range (NumPy accumulates mean/var in floating point)
+                if prod(s) >= 3 and len(cases) % 4 == 0:
+                    for et, lo, hi in (("i8", 90, 120), ("u8", 170, 250)):
+                        nd = [[r.randint(lo, hi) for _ in range(prod(s))]]
+                        cases.append(dict(op="mean", shapes=[s], args=dict(af, initial=[], keepdims="F", mul=n, etype=et), data=nd))
+                        cases.append(dict(op="var", shapes=[s], args=dict(af, initial=[], keepdims="F", mul=n * n, n=n, etype=et), data=nd))
                 cases.append(dict(op="vector_norm", shapes=[s], args=dict(af, initial=[], keepdims="F", mul=1), data=dat))
             for ax in range(-d, d):
                 for op in ACC:
